@@ -1139,9 +1139,51 @@ def gen_arg_flow():
     return '\n'.join(out) + '\n'
 
 
+# ----------------------------------------------------------------------------- where user code is compiled, and under which __future__ flags (C07, C08, C20)
+def compile_sites():
+    """every `compile(...)`, and every `exec(...)` / `eval(...)` of something that is not the result of a `compile(...)` call, in kernprof.py and
+    the package: (file, line, callee, __future__ features of that file, dont_inherit=True given?).  Code compiled there inherits the
+    features unless `dont_inherit=True` is passed (`exec` / `eval` of a string cannot pass it)."""
+    files = ['kernprof.py']
+    for base, _dirs, names in os.walk(os.path.join(REPO, 'line_profiler')):
+        for n in sorted(names):
+            if n.endswith('.py'):
+                files.append(os.path.relpath(os.path.join(base, n), REPO))
+    out = []
+    for rel in sorted(files):
+        try:
+            tree = ast.parse(src_of(rel))
+        except SyntaxError:
+            continue
+        feats = sorted({a.name for n in tree.body if isinstance(n, ast.ImportFrom) and n.module == '__future__' for a in n.names})
+        for node in ast.walk(tree):
+            if isinstance(node, ast.Call) and isinstance(node.func, ast.Name) and node.func.id in ('compile', 'exec', 'eval'):
+                if node.func.id != 'compile' and node.args and isinstance(node.args[0], ast.Call) and ast.unparse(node.args[0].func) == 'compile':
+                    continue        # exec(compile(...)): the inner call is the site
+                kw = {k.arg: k.value for k in node.keywords}
+                di = kw.get('dont_inherit')
+                if di is None and node.func.id == 'compile' and len(node.args) >= 5:
+                    di = node.args[4]
+                out.append((rel, node.lineno, node.func.id, feats, isinstance(di, ast.Constant) and di.value is True))
+    return out
+
+
+def gen_compile_sites():
+    out = ['/-! Where kernprof and the package compile code they were handed (scripts, rewritten trees, statements), and the `__future__` features of',
+           '    the compiling file — copied from the tree by tools/extract.py, regenerated on every run. -/', 'namespace LPVerif.Generated', '']
+    out.append('/-- (file, line, callee, `from __future__ import …` names of that file, `dont_inherit=True` passed) -/')
+    out.append('def compileSites : List (String × Nat × String × List String × Bool) := [')
+    out.append(',\n'.join('  (%s, %d, %s, [%s], %s)' % (lean_str(f), l, lean_str(c), ', '.join(lean_str(x) for x in ft), 'true' if di else 'false')
+                          for f, l, c, ft, di in compile_sites()))
+    out.append(']')
+    out.append('')
+    out.append('end LPVerif.Generated')
+    return '\n'.join(out) + '\n'
+
+
 GENERATORS = [('PreParse.lean', gen_pre_parse), ('RelImport.lean', gen_get_module),
               ('KernprofOptions.lean', gen_kernprof_options), ('ExplicitTables.lean', gen_explicit_tables),
-              ('Explicit.lean', gen_explicit_methods), ('WrapTables.lean', gen_wrap_tables), ('Skeletons.lean', gen_skeletons), ('ReportTables.lean', gen_report_tables), ('ChannelTables.lean', gen_channel_tables), ('TimerProg.lean', gen_timer_prog), ('ArgFlow.lean', gen_arg_flow)]
+              ('Explicit.lean', gen_explicit_methods), ('WrapTables.lean', gen_wrap_tables), ('Skeletons.lean', gen_skeletons), ('ReportTables.lean', gen_report_tables), ('ChannelTables.lean', gen_channel_tables), ('TimerProg.lean', gen_timer_prog), ('ArgFlow.lean', gen_arg_flow), ('CompileSites.lean', gen_compile_sites)]
 
 
 def regenerate(log=None):
